@@ -174,7 +174,7 @@ PROPS = {
             "leanchecker": ["GcpVerif.Proofs.GME", "GcpVerif.Proofs.GME3", "GcpVerif.Proofs.Monitor"], "trusted_base": GME_TB,
             "assumptions": ["'within bounded time' is observed only through the monitor's notification being delivered by the harness"]},
     "C16": {"harnesses": ["gme"], "lake_targets": ["GcpVerif"],
-            "theorems": gme_thms(["failed_update_is_identity", "invalid_options_rejected", "dial_failure_rejected", "close_releases_all", "rpc_routes_current"]) +
+            "theorems": gme_thms(["failed_update_is_identity", "invalid_options_rejected", "dial_failure_rejected", "close_releases_all", "close_leaves_timers", "rpc_routes_current"]) +
                         [("GcpVerif.Proofs.GME2", "GcpVerif.GME.rpc_total"), ("GcpVerif.Proofs.GME2", "GcpVerif.GME.reach_g")],
             "leanchecker": ["GcpVerif.Proofs.GME", "GcpVerif.Proofs.GME2"], "trusted_base": GME_TB, "assumptions": []},
     "C12": {"harnesses": ["st"], "lake_targets": ["GcpVerif"],
